@@ -15,6 +15,7 @@ and the release is orderly).
 from __future__ import annotations
 
 import functools
+import logging
 import queue
 import threading
 import time
@@ -57,6 +58,8 @@ WORKERS = {"quick": 16, "thorough": 16}
 REQUIRE = {"pairs_compared": 120, "pairs_nontrivial": 100, "handler_raises": 300, "scenarios_deterministic": 8,
            "events_raised_distinct": 17, "intervention_cases": 15, "intervention_raises": 15}
 MAX_INCONCLUSIVE_FRAC = 0.05
+
+_LOG = logging.getLogger("pynetdicom.events")
 
 NOTIF = ["EVT_ABORTED", "EVT_ACCEPTED", "EVT_ACSE_RECV", "EVT_ACSE_SENT", "EVT_CONN_CLOSE", "EVT_CONN_OPEN",
          "EVT_DATA_RECV", "EVT_DATA_SENT", "EVT_DIMSE_RECV", "EVT_DIMSE_SENT", "EVT_ESTABLISHED",
@@ -139,6 +142,7 @@ class _Holder:
 class Cfg:
     kind = "function"
     exc = "RuntimeError"
+    swallow = False      # timing control: the handler raises the same exception but catches it itself
     raised = []          # (side, event name)
     dimse = []           # (side, SENT|RECV, message class, MessageID(BeingRespondedTo), Status)
     lock = threading.Lock()
@@ -159,9 +163,9 @@ class C26Recorder(lifecycle.Recorder):
             if name in ("EVT_DIMSE_SENT", "EVT_DIMSE_RECV"):
                 try:
                     m = event.message
+                    cs = m.command_set
                     rec = (side, name[-4:], type(m).__name__,
-                           getattr(m, "MessageID", None) or getattr(m, "MessageIDBeingRespondedTo", None),
-                           getattr(m, "Status", None))
+                           cs.get("MessageID", None) or cs.get("MessageIDBeingRespondedTo", None), cs.get("Status", None))
                 except Exception as exc:          # observation must never be the failure
                     rec = (side, name[-4:], "?", None, repr(exc)[:60])
                 with Cfg.lock:
@@ -173,6 +177,14 @@ class C26Recorder(lifecycle.Recorder):
                     raise
                 with Cfg.lock:
                     Cfg.raised.append((side, name))
+                if Cfg.swallow:
+                    # same work as a propagating failure (raise + the two log calls evt.trigger makes), nothing propagates
+                    try:
+                        raise _exc_class(Cfg.exc)(str(exc)) from None
+                    except Exception as inner:
+                        _LOG.error("control: exception swallowed inside the handler")
+                        _LOG.exception(inner)
+                    return None
                 raise _exc_class(Cfg.exc)(str(exc)) from None
         kind = Cfg.kind
         if kind == "partial":
@@ -314,8 +326,8 @@ def _short(x):
     return r if len(r) < 160 else r[:160] + "..."
 
 
-def run_once(scn, seed, mask_acc=None, mask_req=None, kind="function", exc="RuntimeError"):
-    Cfg.kind, Cfg.exc = kind, exc
+def run_once(scn, seed, mask_acc=None, mask_req=None, kind="function", exc="RuntimeError", swallow=False):
+    Cfg.kind, Cfg.exc, Cfg.swallow = kind, exc, swallow
     with Cfg.lock:
         Cfg.raised = []
         Cfg.dimse = []
@@ -440,17 +452,36 @@ def differential(scn, seed, side, label, evkey, m, kind, exc, base, counters):
         counters["info_%s_differs" % c] = counters.get("info_%s_differs" % c, 0) + 1
     if not diffs:
         return viol, raised, None
-    # ---- confirm: the baseline must still reproduce, and the variant must differ again in the same classes
-    b2, bp2, _ = run_once(scn, seed)
-    if any(c in base["stable"] and b2[c] != base["ref"][c] for c in VIOLATION_COMPONENTS) or bp2["excs"] or bp2["fsm_problems"]:
-        counters["unconfirmed_baseline_flaky"] += 1
-        return viol, raised, "baseline did not reproduce"
-    comp2, problems2, raised2 = run_once(scn, seed, m.get("acc"), m.get("req"), kind, exc)
-    diffs2, _ = compare(base, comp2, problems2)
-    classes = {c for c, _ in diffs} & {c for c, _ in diffs2}
-    if not classes:
-        counters["unconfirmed_variant_flaky"] += 1
-        return viol, raised, "difference did not reproduce: %r" % (diffs[:1],)
+    if not raised:
+        counters["difference_without_any_raise"] = counters.get("difference_without_any_raise", 0) + 1
+        return viol, raised, "run differs from the baseline although no handler raised (flaky run)"
+    # ---- confirm: three more rounds (baseline re-run, variant re-run); the baseline must still reproduce every time and
+    #      the variant must differ in the same classes every time (the machine is shared: stalls of > 100 ms happen, and
+    #      pynetdicom's requestor has a rare unrelated race that loses a DIMSE response)
+    classes = {c for c, _ in diffs}
+    for _ in range(3):
+        b2, bp2, _r = run_once(scn, seed)
+        if any(c in base["stable"] and b2[c] != base["ref"][c] for c in VIOLATION_COMPONENTS) or bp2["excs"] or bp2["fsm_problems"]:
+            counters["unconfirmed_baseline_flaky"] += 1
+            return viol, raised, "baseline did not reproduce"
+        comp2, problems2, raised2 = run_once(scn, seed, m.get("acc"), m.get("req"), kind, exc)
+        diffs2, _i = compare(base, comp2, problems2)
+        classes &= {c for c, _ in diffs2}
+        if not classes:
+            counters["unconfirmed_variant_flaky"] += 1
+            return viol, raised, "difference did not reproduce: %r" % (diffs[:1],)
+    # ---- timing control: the same handlers raise the same exceptions at the same invocations but catch them themselves.
+    #      If that alone changes the exchange, the scenario is timing-sensitive at this point (a slow benign handler would
+    #      do the same) and the difference says nothing about exception propagation.
+    cc, cp, cr = run_once(scn, seed, m.get("acc"), m.get("req"), kind, exc, swallow=True)
+    cd, _ = compare(base, cc, cp)
+    if {c for c, _ in cd} & classes:
+        cc2, cp2, _ = run_once(scn, seed, m.get("acc"), m.get("req"), kind, exc, swallow=True)
+        cd2, _ = compare(base, cc2, cp2)
+        classes -= ({c for c, _ in cd} | {c for c, _ in cd2})
+        counters["timing_sensitive_differences"] = counters.get("timing_sensitive_differences", 0) + 1
+        if not classes:
+            return viol, raised, "timing-sensitive (the swallowing control differs from the baseline too): %r" % (cd[:1],)
     # ---- localise the raising event of multi-event masks
     culprit = evkey
     if evkey in ("ALL", "RANDOM"):
@@ -464,7 +495,7 @@ def differential(scn, seed, side, label, evkey, m, kind, exc, base, counters):
             if r3 and {c for c, _ in d3} & classes:
                 culprit = ev
                 break
-    named = "" if kind in KINDS_NAMED else "handler-without-__name__|"
+    unnamed = kind not in KINDS_NAMED
     where = "mask %s on %s, handler kind %s raising %s, %d raise(s) [%s]" % (
         label, side, kind, exc, len(raised), ",".join(sorted({"%s/%s" % r for r in raised}))[:200])
     for c, detail in diffs:
@@ -472,12 +503,15 @@ def differential(scn, seed, side, label, evkey, m, kind, exc, base, counters):
             continue
         if c == "exc":
             x = problems["excs"][0]
-            key = "%sexception-escaped|%s|%s|%s" % (named, culprit, x["type"], x["where"] or x["thread"])
+            key = "exception-escaped|%s|%s|%s" % (culprit, x["type"], x["where"] or x["thread"])
         elif c == "fsmproblem":
             p = problems["fsm_problems"][0]
-            key = "%sfsm-problem|%s|%s|%s" % (named, culprit, p["kind"], p.get("pair"))
+            key = "fsm-problem|%s|%s|%s" % (culprit, p["kind"], p.get("pair"))
         else:
-            key = "%s%s|%s|%s|%s" % (named, CLASS_KEY[c], scn["name"], culprit, side)
+            key = "%s|%s|%s|%s" % (CLASS_KEY[c], scn["name"], culprit, side)
+        if unnamed:
+            # one root cause class first (a callable without __name__), then only the raising event
+            key = "handler-without-__name__|%s|%s" % ("exchange-differs" if c in CLASS_KEY else key.split("|")[0], culprit)
         if not any(v["key"] == key for v in viol):
             viol.append({"key": key, "detail": "%s: %s; %s" % (scn["name"], detail, where)})
     return viol, raised, None
@@ -500,26 +534,29 @@ def _mask_specs(tier, seed, scn_name, side):
 
 
 def gen_cases(tier, seed):
-    cases = []
+    cases, unnamed = [], []
     names = LIFECYCLE_CANDIDATES + [s["name"] for s in OWN_SCENARIOS] + RACE_PROBE
     block = 9 if tier == "quick" else 14
-    for si, name in enumerate(names):
+    for name in names:
         for side in ("acc", "req", "both"):
             specs = _mask_specs(tier, seed, name, side)
             if name in RACE_PROBE:
                 specs = specs[:2]
             r = rng_for(seed, PID, "kinds", name, side)
             for bi in range(0, len(specs), block):
-                # mostly named callables; the unnamed kinds get their own blocks so that keys stay separable
                 cases.append({"part": "diff", "scenario": name, "side": side, "seed": seed, "specs": specs[bi:bi + block],
                               "kind": r.choice(KINDS_NAMED), "exc": r.choice(EXC_NAMES)})
-            # legitimate callables without __name__ (functools.partial / callable object): one small block each
-            ev_sample = r.sample(NOTIF, 3 if tier == "quick" else 8)
-            cases.append({"part": "diff", "scenario": name, "side": side, "seed": seed,
-                          "specs": [{"t": "event", "ev": ev} for ev in ev_sample],
-                          "kind": r.choice(KINDS_UNNAMED), "exc": r.choice(EXC_NAMES)}) if name not in RACE_PROBE else None
+            # legitimate callables without __name__ (functools.partial / callable object) get their own small blocks, so
+            # that their keys stay separable
+            if name not in RACE_PROBE:
+                unnamed.append({"part": "diff", "scenario": name, "side": side, "seed": seed,
+                                "specs": [{"t": "event", "ev": ev} for ev in r.sample(NOTIF, 2 if tier == "quick" else 8)],
+                                "kind": r.choice(KINDS_UNNAMED), "exc": r.choice(EXC_NAMES)})
     cases += intervention_cases(tier, seed)
-    return cases
+    if tier == "quick":
+        unnamed = rng_for(seed, PID, "unnamed").sample(unnamed, 8)
+    # last: on the unfixed tree these leave idle DUL threads behind in the worker (they run after everything else)
+    return cases + unnamed
 
 
 def run_case(case):
@@ -585,11 +622,287 @@ def extra_evidence(tier, results):
             "side_events_raised": sorted(events), "intervention_distinct": len(iv)}
 
 
-# --------------------------------------------------------------------------------------------- part B placeholder
+# --------------------------------------------------------------------------------------------- part B: intervention
+
+VER = "1.2.840.10008.1.1"
+CT = "1.2.840.10008.5.1.4.1.1.2"
+FIND = "1.2.840.10008.5.1.4.1.2.1.1"
+MOVE = "1.2.840.10008.5.1.4.1.2.1.2"
+GET = "1.2.840.10008.5.1.4.1.2.1.3"
+FILM = "1.2.840.10008.5.1.1.1"          # Basic Film Session: Print Management accepts all six DIMSE-N services
+
+# event -> (documented status of the (last) response | None for negotiation events)
+IV_STATUS = {"EVT_C_ECHO": 0x0000, "EVT_C_STORE": 0xC211, "EVT_C_FIND": 0xC311, "EVT_C_GET": 0xC411, "EVT_C_MOVE": 0xC511,
+             "EVT_N_ACTION": 0x0110, "EVT_N_CREATE": 0x0110, "EVT_N_DELETE": 0x0110, "EVT_N_EVENT_REPORT": 0x0110,
+             "EVT_N_GET": 0x0110, "EVT_N_SET": 0x0110}
+IV_NEGOTIATION = ["EVT_USER_ID", "EVT_ASYNC_OPS", "EVT_SOP_COMMON", "EVT_SOP_EXTENDED"]
+IV_GENERATORS = ["EVT_C_FIND", "EVT_C_GET", "EVT_C_MOVE"]
+
 
 def intervention_cases(tier, seed):
-    return []
+    cases = []
+    r = rng_for(seed, PID, "intervention")
+    targets = [(ev, "call") for ev in list(IV_STATUS) + IV_NEGOTIATION + ["EVT_C_STORE@requestor"]]
+    targets += [(ev, sh) for ev in IV_GENERATORS for sh in ("gen-first", "gen-mid")]
+    for ev, shape in targets:
+        excs = EXC_NAMES if tier != "quick" else r.sample(EXC_NAMES, 2)
+        for exc in excs:
+            cases.append({"part": "intervention", "event": ev, "shape": shape, "exc": exc, "seed": seed})
+    return cases
+
+
+def _identifier():
+    from pydicom.dataset import Dataset
+    ds = Dataset()
+    ds.QueryRetrieveLevel = "PATIENT"
+    ds.PatientName = "*"
+    return ds
+
+
+def _instance():
+    from pydicom.dataset import Dataset, FileMetaDataset
+    ds = Dataset()
+    ds.SOPClassUID = CT
+    ds.SOPInstanceUID = "1.2.826.0.1.3680043.9.3811.26.1"
+    ds.PatientName = "C26"
+    ds.file_meta = FileMetaDataset()
+    ds.file_meta.TransferSyntaxUID = "1.2.840.10008.1.2"
+    return ds
 
 
 def run_intervention_case(case):
-    raise NotImplementedError
+    """A violation must reproduce in two further runs of the same case (pynetdicom's requestor has a rare, unrelated race
+    in which a DIMSE response is taken by the requestor's own reactor: the API then returns an empty status and aborts)."""
+    res = _intervention_once(case)
+    if res["violations"]:
+        keys = {v["key"] for v in res["violations"]}
+        for _ in range(2):
+            again = _intervention_once(case)
+            keys &= {v["key"] for v in again["violations"]}
+            if not keys:
+                break
+        dropped = [v["key"] for v in res["violations"] if v["key"] not in keys]
+        res["violations"] = [v for v in res["violations"] if v["key"] in keys]
+        if dropped:
+            res["counters"]["intervention_unconfirmed"] = len(dropped)
+            res["sample"]["unconfirmed"] = dropped
+    return res
+
+
+def _intervention_once(case):
+    from pynetdicom import evt, build_role
+    from pynetdicom.pdu_primitives import (UserIdentityNegotiation, AsynchronousOperationsWindowNegotiation,
+                                           SOPClassExtendedNegotiation, SOPClassCommonExtendedNegotiation)
+    from pydicom.dataset import Dataset
+    target, shape, excname = case["event"], case["shape"], case["exc"]
+    ev_name = target.split("@")[0]
+    exc_cls = _exc_class(excname)
+    taps.reset()
+    st = {"entered": 0, "raised": 0, "subop_rsp": [], "echo": 0}
+    viol = []
+    counters = {"intervention_cases": 1, "intervention_raises": 0}
+
+    def boom():
+        st["raised"] += 1
+        raise exc_cls("injected failure in %s handler" % target)
+
+    def h_call(event):
+        st["entered"] += 1
+        if ev_name == "EVT_C_ECHO" and st["entered"] > 1:
+            st["echo"] += 1
+            return 0x0000          # the follow-up C-ECHO that proves the association is still usable
+        boom()
+
+    def h_gen(event):
+        st["entered"] += 1
+        if shape == "gen-mid":
+            if ev_name == "EVT_C_FIND":
+                ds = _identifier(); ds.PatientName = "A"
+                yield 0xFF00, ds
+            elif ev_name == "EVT_C_GET":
+                yield 1
+            elif ev_name == "EVT_C_MOVE":
+                yield ("127.0.0.1", st["dest_port"])
+                yield 1
+        boom()
+        yield 0x0000, None          # pragma: no cover (makes this a generator function)
+
+    def h_echo(event):
+        st["echo"] += 1
+        return 0x0000
+
+    def h_get_for_subop(event):
+        yield 1
+        yield 0xFF00, _instance()
+
+    def h_dimse_recv(event):
+        m = event.message
+        if type(m).__name__ == "C_STORE_RSP":
+            st["subop_rsp"].append(m.command_set.get("Status", None))
+
+    raising = h_gen if shape.startswith("gen") else h_call
+    acc_handlers, req_handlers, ext_neg = [], [], []
+    if target == "EVT_C_STORE@requestor":
+        acc_handlers = [(evt.EVT_C_GET, h_get_for_subop), (evt.EVT_C_ECHO, h_echo), (evt.EVT_DIMSE_RECV, h_dimse_recv)]
+        req_handlers = [(evt.EVT_C_STORE, raising)]
+        ext_neg.append(build_role(CT, scp_role=True))
+    else:
+        acc_handlers = [(getattr(evt, ev_name), raising)]
+        if ev_name != "EVT_C_ECHO":
+            acc_handlers.append((evt.EVT_C_ECHO, h_echo))
+    if ev_name == "EVT_USER_ID":
+        ui = UserIdentityNegotiation()
+        ui.user_identity_type = 1
+        ui.primary_field = b"user"
+        ext_neg.append(ui)
+    elif ev_name == "EVT_ASYNC_OPS":
+        ao = AsynchronousOperationsWindowNegotiation()
+        ao.maximum_number_operations_invoked = 3
+        ao.maximum_number_operations_performed = 2
+        ext_neg.append(ao)
+    elif ev_name == "EVT_SOP_EXTENDED":
+        se = SOPClassExtendedNegotiation()
+        se.sop_class_uid = CT
+        se.service_class_application_information = b"\x02\x00\x03\x00\x01\x00"
+        ext_neg.append(se)
+    elif ev_name == "EVT_SOP_COMMON":
+        sc = SOPClassCommonExtendedNegotiation()
+        sc.sop_class_uid = CT
+        sc.service_class_uid = "1.2.840.10008.4.2"
+        ext_neg.append(sc)
+
+    ae_acc = harness.make_ae(title="ACCEPTOR", timeouts=(1.0, 1.0, 2.0, 1.0), supported=[VER, CT, FIND, GET, MOVE, FILM])
+    if target == "EVT_C_STORE@requestor":
+        for cx in ae_acc.supported_contexts:
+            if cx.abstract_syntax == CT:
+                cx.scu_role, cx.scp_role = True, True
+    ae_req = harness.make_ae(title="REQUESTOR", timeouts=(1.0, 1.5, 2.0, 1.0), requested=[VER, CT, FIND, GET, MOVE, FILM])
+    ae_dest = None
+    if ev_name == "EVT_C_MOVE" and shape == "gen-mid":
+        # a real move destination, so that the handler is resumed (and raises) after the store association is up
+        ae_dest = harness.make_ae(title="DEST", timeouts=(1.0, 1.0, 2.0, 1.0), supported=[CT])
+        _, st["dest_port"] = harness.start_server(ae_dest, [(evt.EVT_C_STORE, lambda event: 0x0000)])
+        ae_acc.add_requested_context(CT)
+    server, port = harness.start_server(ae_acc, acc_handlers)
+    obs = {"established": None, "rejected": None, "statuses": None, "echo": None, "released": None, "user_exc": None,
+           "final": None}
+
+    def requestor():
+        try:
+            a = ae_req.associate("127.0.0.1", port, ext_neg=ext_neg or None, evt_handlers=req_handlers)
+            obs["assoc"] = a
+            obs["established"], obs["rejected"] = a.is_established, a.is_rejected
+            if not a.is_established:
+                return
+            al = Dataset(); al.PatientName = "x"
+            if ev_name == "EVT_C_ECHO":
+                obs["statuses"] = [getattr(a.send_c_echo(), "Status", None)]
+            elif target == "EVT_C_STORE":
+                obs["statuses"] = [getattr(a.send_c_store(_instance()), "Status", None)]
+            elif ev_name == "EVT_C_FIND":
+                obs["statuses"] = [getattr(s, "Status", None) for s, _ in a.send_c_find(_identifier(), FIND)]
+            elif ev_name == "EVT_C_GET" or target == "EVT_C_STORE@requestor":
+                rsps = list(a.send_c_get(_identifier(), GET))
+                obs["statuses"] = [getattr(s, "Status", None) for s, _ in rsps]
+                if rsps:
+                    obs["final"] = {k: getattr(rsps[-1][0], k, None) for k in (
+                        "NumberOfFailedSuboperations", "NumberOfCompletedSuboperations", "NumberOfWarningSuboperations")}
+            elif ev_name == "EVT_C_MOVE":
+                obs["statuses"] = [getattr(s, "Status", None) for s, _ in a.send_c_move(_identifier(), "DEST", MOVE)]
+            elif ev_name == "EVT_N_CREATE":
+                obs["statuses"] = [getattr(a.send_n_create(al, FILM, "1.2.3.4")[0], "Status", None)]
+            elif ev_name == "EVT_N_SET":
+                obs["statuses"] = [getattr(a.send_n_set(al, FILM, "1.2.3.4")[0], "Status", None)]
+            elif ev_name == "EVT_N_GET":
+                obs["statuses"] = [getattr(a.send_n_get([0x00100010], FILM, "1.2.3.4")[0], "Status", None)]
+            elif ev_name == "EVT_N_ACTION":
+                obs["statuses"] = [getattr(a.send_n_action(al, 1, FILM, "1.2.3.4")[0], "Status", None)]
+            elif ev_name == "EVT_N_EVENT_REPORT":
+                obs["statuses"] = [getattr(a.send_n_event_report(al, 1, FILM, "1.2.3.4")[0], "Status", None)]
+            elif ev_name == "EVT_N_DELETE":
+                obs["statuses"] = [getattr(a.send_n_delete(FILM, "1.2.3.4"), "Status", None)]
+            if a.is_established:
+                obs["echo"] = getattr(a.send_c_echo(), "Status", None)
+            if a.is_established:
+                a.release()
+            obs["released"] = a.is_released
+        except Exception as exc:
+            obs["user_exc"] = repr(exc)
+
+    t = threading.Thread(target=requestor, daemon=True)
+    t0 = time.time()
+    t.start()
+    t.join(12.0)
+    quiet_ok, _ = taps.wait_quiet(max(1.0, 12.0 - (time.time() - t0)))
+    accs = harness.acceptor_assocs()
+    accs = [a for a in accs if a.ae is ae_acc] or accs
+    acc = accs[0] if accs else None
+    acc_flags = None if acc is None else {"released": acc.is_released, "aborted": acc.is_aborted, "rejected": acc.is_rejected,
+                                          "established": acc.is_established}
+    excs = [{k: x.get(k) for k in ("thread", "type", "where", "text", "frames")} for x in taps.State.excs]
+    fsm_problems = [{k: p.get(k) for k in ("kind", "pair", "action", "exc", "text")} for p in taps.State.fsm_problems]
+    harness.stop_ae(ae_acc, 3.0)
+    harness.stop_ae(ae_req, 3.0)
+    if ae_dest is not None:
+        harness.stop_ae(ae_dest, 3.0)
+    counters["intervention_raises"] = 1 if st["raised"] else 0
+    what = "%s handler (%s) raising %s" % (target, shape, excname)
+    sample = {"event": target, "shape": shape, "exc": excname, "observed": {k: v for k, v in obs.items() if k != "assoc"},
+              "acceptor": acc_flags, "handler": st}
+    inconclusive = None
+    if t.is_alive() or not quiet_ok:
+        viol.append({"key": "intervention|%s|hang" % target, "detail": "%s: requestor returned=%s, all threads ended=%s; %r" % (
+            what, not t.is_alive(), quiet_ok, sample["observed"])})
+    if obs["user_exc"]:
+        viol.append({"key": "intervention|%s|requestor-api-raised" % target, "detail": "%s: %s" % (what, obs["user_exc"])})
+    for x in excs:
+        viol.append({"key": "intervention|%s|exception-escaped|%s|%s" % (target, x["type"], x["where"] or x["thread"]),
+                     "detail": "%s: %s in thread %s: %s %r" % (what, x["type"], x["thread"], x["text"], x["frames"])})
+    for p in fsm_problems:
+        viol.append({"key": "intervention|%s|fsm-problem|%s|%s" % (target, p["kind"], p.get("pair")),
+                     "detail": "%s: %r" % (what, p)})
+    if not st["raised"]:
+        inconclusive = "the %s handler never raised (entered %d times): %r" % (target, st["entered"], sample["observed"])
+    elif ev_name == "EVT_USER_ID":
+        if not obs["rejected"] or obs["established"] or (acc_flags and acc_flags["established"]):
+            viol.append({"key": "intervention|EVT_USER_ID|not-rejected",
+                         "detail": "%s: requestor established=%r rejected=%r, acceptor %r" % (what, obs["established"], obs["rejected"], acc_flags)})
+    else:
+        if not obs["established"]:
+            viol.append({"key": "intervention|%s|not-established" % target,
+                         "detail": "%s: association not established (rejected=%r)" % (what, obs["rejected"])})
+        else:
+            got = obs["statuses"]
+            if ev_name in IV_STATUS and target != "EVT_C_STORE@requestor":
+                want = [[IV_STATUS[ev_name]]]
+                if shape == "gen-mid" and ev_name == "EVT_C_FIND":
+                    want = [[0xFF00, 0xC311]]
+                elif shape == "gen-first" and ev_name == "EVT_C_GET":
+                    want.append([0xC413])       # documentation ambiguous for a failure before the first yield: both
+                elif shape == "gen-first" and ev_name == "EVT_C_MOVE":
+                    want.append([0xC514])       # documented candidates are accepted (same rule as C21)
+                if got not in want:
+                    viol.append({"key": "intervention|%s|wrong-status" % target, "detail": "%s: requestor received statuses %s, documented %s" % (
+                        what, _hexes(got), " or ".join(_hexes(w) for w in want))})
+            if target == "EVT_C_STORE@requestor":
+                if st["subop_rsp"] != [0xC211]:
+                    viol.append({"key": "intervention|%s|wrong-status" % target, "detail": "%s: C-STORE sub-operation responses seen by the "
+                                 "acceptor %s, documented [0xC211]" % (what, _hexes(st["subop_rsp"]))})
+                fin = obs["final"] or {}
+                if not got or got[-1] in (0x0000, 0xFF00, None) or fin.get("NumberOfFailedSuboperations") != 1:
+                    viol.append({"key": "intervention|%s|failed-suboperation-not-reported" % target,
+                                 "detail": "%s: C-GET statuses %s, final counts %r" % (what, _hexes(got), fin)})
+            if obs["echo"] != 0x0000 or not obs["released"] or not (acc_flags and acc_flags["released"]):
+                viol.append({"key": "intervention|%s|association-unusable-afterwards" % target,
+                             "detail": "%s: follow-up C-ECHO status %r, requestor released=%r, acceptor %r" % (
+                                 what, obs["echo"], obs["released"], acc_flags)})
+    seen = set()
+    viol = [v for v in viol if not (v["key"] in seen or seen.add(v["key"]))]
+    return {"key": "|".join([target, shape, excname]), "nontrivial": bool(st["raised"]), "sample": sample, "violations": viol,
+            "counters": counters, "inconclusive": inconclusive, "iv_key": "|".join([target, shape, excname]) if st["raised"] else None}
+
+
+def _hexes(xs):
+    if xs is None:
+        return "None"
+    return "[" + ", ".join("None" if x is None else "0x%04X" % x for x in xs) + "]"
